@@ -24,6 +24,14 @@ func VerifC11Authorisation() {
 		vAssume(ok && r.(bool))
 		owner, hasAdmin = o2, false
 	}
+	if variant == 2 { // the name, with its appointed admin, EXPIRES and is registered again by o2: the new
+		// life of the name starts without an admin, whatever the previous owner had appointed
+		vAdvanceTime(100001 * 1000)
+		vSign(o2, true)
+		ok, r = vInvoke("nns", "register", "a.com", o2, "e2@nspcc.io", 1, 2, 100000, 3)
+		vAssume(ok && r.(bool))
+		owner, hasAdmin = o2, false
+	}
 
 	if method == 11 { // a third-level name of ANOTHER owner (o3), for the fourth-level registration below
 		vSign(owner, true)
@@ -41,7 +49,7 @@ func VerifC11Authorisation() {
 	vSign(vCommitteeAcct(), sCom)
 	vSign(vAcct("stranger"), true)
 	sOwner := sO1
-	if variant == 1 {
+	if variant >= 1 {
 		sOwner = sO2
 	}
 	nameAuth := sOwner || (hasAdmin && sA1)
